@@ -54,14 +54,17 @@ def execute(check: Check, tape: Tape, keep_log: bool = False) -> Tuple[Ctx, Opti
         return ctx, None, tb
 
 
-def _minimise(check: Check, values: List[int], cls: str, budget_replays: int, budget_s: float) -> List[int]:
+def _minimise(check: Check, values: List[int], cls: str, budget_replays: int, budget_s: float,
+              findings=None) -> List[int]:
     def fails(cand):
         t = Tape(values=cand)
         try:
             _, v, herr = execute(check, t)
         except _RunTimeout:
             return None
-        if v is not None and v.cls == cls:
+        # same violation class, and never a recorded known finding: shrinking a new violation must not
+        # slide into a neighbouring input that fails for an already recorded reason
+        if v is not None and v.cls == cls and not (findings is not None and findings.is_known(check.property_id, v)):
             return t.record
         return None
 
@@ -141,7 +144,7 @@ def _worker(args) -> Dict[str, Any]:
                     signal.alarm(0)
                     try:
                         rec["tape"] = _minimise(check, list(tape.record), v.cls,
-                                                shrink_budget[0], shrink_budget[1])
+                                                shrink_budget[0], shrink_budget[1], findings)
                         rec["minimised"] = True
                     except Exception as e:  # noqa: BLE001
                         rec["minimise_error"] = repr(e)
